@@ -29,6 +29,9 @@ def first_diff(a, b):
 def judge_c03(d):
     """Is the implementation's answer a violation of C03 (not merely different from the model)?"""
     q, impl, model = d["query"], d["impl"], d["model"]
+    if q.startswith("c10 real "):
+        # how the refusal is reported to the client (suite c10real)
+        return judge_c10(d)
     t = q.split()
     try:
         if t[1] in ("v4table", "v6mappedtable"):
@@ -264,8 +267,16 @@ def judge_c15(d):
             return "failure reply reported as %s, expected %s" % (io, mo)
         return None
     if t[1] == "fwd":
-        if (impl == "connected") != (model == "connected") or model in ("hostunreachable", "timeout") and impl != model:
-            return "forwarder mapped the SOCKS5 outcome to %s, expected %s" % (impl, model)
+        try:
+            ib, io = [x.strip() for x in impl.split("|")]
+            mb, mo = [x.strip() for x in model.split("|")]
+        except ValueError:
+            return None
+        if ib != mb:
+            return ("the upstream SOCKS5 server received %s from the forwarder; the request for this destination and these credentials is %s "
+                    "(destinations keep their address type and port)" % (ib[:160], mb[:160]))
+        if (io == "connected") != (mo == "connected") or mo in ("hostunreachable", "timeout") and io != mo:
+            return "forwarder mapped the SOCKS5 outcome to %s, expected %s" % (io, mo)
         return None
     if t[1] in ("udpwrap", "udpunwrap"):
         return "RFC 1928 section 7 header handling differs: got %s expected %s" % (impl[:80], model[:80])
@@ -619,7 +630,7 @@ def judge_c20(d):
 
 PROPS = {
     "C03": dict(
-        suites=["c03"],
+        suites=["c03", "c10real"],
         judge=judge_c03,
         level="proof",
         exhaustive=False,
@@ -630,7 +641,8 @@ PROPS = {
              "every pool address also as a host name whose text is the IP literal (plain and bracketed; the form a port-less "
              "`GET http://127.0.0.1/` or an authority the socket-address parser rejects takes), through the real resolver call; "
              "canary listeners on this machine's non-global addresses that no spelling, literal or as a name, may reach; "
-             "a case is non-trivial/distinct by its query line",
+             "a case is non-trivial/distinct by its query line"
+             " How a refusal is reported (suite c10real, shared with C10): CONNECT, and plain-HTTP GET / POST whose authority spells the port out or leaves it out, to 19 literals and 9 scripted names x both policies x IPv6 on/off through the real direct forwarder: status, X-Warning code and X-Adguard-Vpn-Error (which must name the request's authority) against the C03 decision carried through the generated tables",
         explanation="theorems v4_exact, v6_unicast_exact, v6_mapped_exact, connect_only_global, global_*_never_refused about "
                     "TT/Model/Ip.lean; model tied to lib/src/net_utils.rs + tcp_forwarder.rs by exhaustive/differential runs",
         trusted=["std::net::Ipv4Addr/Ipv6Addr predicates as transcribed (tied by the exhaustive sweep)",
@@ -726,7 +738,8 @@ PROPS = {
              "its connection rules (recorded by the door in Core::evaluate_connection_rules) must be bytes 11..43 of what the TCP "
              "client sent, and SSL_get_client_random of the QUIC client's own handshake; 14 (thorough 30) rustls clients whose ClientHello "
              "message is spread over two TLS records (cut inside the handshake header, inside and right after the random, later): the "
-             "rules must be given the true random or none (`None`, so that random rules fail closed) - never another value",
+             "rules must be given the true random or none (`None`, so that random rules fail closed) - never another value"
+             " The read loop also gets streams that end before the first record is complete (cut after 0, 1, 4, 5, 9, 43, 44 bytes, in the middle, one byte short): it must return at once with the random absent and the bytes replayed",
         explanation="theorems extract_exact, prefix_needs_more, found_is_the_field, loop_segmentation_invariant, "
                     "loop_absent_never_wrong, loop_conserves, replay_transparent/complete about TT/Model/ClientHello.lean",
         trusted=["tls-parser 0.12 record/handshake/ClientHello walk as transcribed; exactness claimed for records whose first handshake "
@@ -744,7 +757,8 @@ PROPS = {
              "domains of 0/255/256/300 bytes, UDP associate} x server scripts (every method byte class, auth version/status, reply "
              "codes 0..10, address types incl. invalid, reserved byte, bad UTF-8 domain) truncated at a random byte in a third of the "
              "cases and delivered whole / byte-wise / in 2-4 segments; every 8th case also through Socks5Forwarder against a loopback "
-             "TCP server; relayed datagrams through a real UDP association",
+             "TCP server; relayed datagrams through a real UDP association"
+             " The forwarder runs also compare what the upstream received with the model's client messages (the scripted upstream answers step by step), with IPv4-mapped, IPv4-compatible, NAT64, loopback and unspecified IPv6 literals among the destinations",
         explanation="theorems selection_wellformed, userpass_wellformed_or_fails, request_wellformed_or_fails, extended_wellformed, "
                     "split_first_colon, sent_is_encoded_messages, proceeds_only_if_offered_and_success, failure_reply_fails_request, "
                     "reply_truncation_is_error, udp_unwrap_wrap, udp_unwrap_no_panic about TT/Model/Socks5.lean",
@@ -807,7 +821,8 @@ PROPS = {
              "password) and a host name; the real endpoint binary started in the wizard's directory from the files it wrote must come up, "
              "listen on the address asked for, present the generated certificate for the host name and answer health checks with six "
              "Proxy-Authorization tokens (right, longer password, empty password, other case of the user, trimmed password, none) as the "
-             "registry model does",
+             "registry model does"
+             " Certificate files that cannot be loaded as what they claim to be - a CERTIFICATE block that is not base64 (alone with a good key, after a good certificate, before one), a key and no certificate, an empty file - in every host class, built and through a hosts file at start-up: all refused",
         explanation="theorems decode_encode_basic, literal_verbatim, basic_plain_verbatim, load_ok_iff, empty_rejected, base64_injective, "
                     "accepted_iff_listed, accepted_token_identifies_pair, refuses_to_start_iff about TT/Model/Creds.lean",
         trusted=["toml_edit for everything outside single-line basic/literal strings (multi-line strings are outside the model)",
@@ -1020,7 +1035,8 @@ PROPS = {
              "see, per source socket, exactly one flow's payload sequence, and one socket per flow; the servers' replies must come back as "
              "6.4 records labelled (destination, source) of their flow, unaltered, never twice, all of them when the client's window is "
              "large (with a 6000-byte window the dropping sink may omit whole datagrams); outbound_udp_sockets follows the flows and "
-             "returns to zero; a dead-port flow does not stop the others",
+             "returns to zero; a dead-port flow does not stop the others"
+             " One reply in five is 0, 1 or 2 bytes long (an empty datagram is a datagram: relayed, and the flow stays)",
         explanation="theorems sent_to_own_destination, datagram_step_output, reply_labelled_with_own_flow, reply_delivered_on_live_flow, "
                     "tables_coupled, sockets_from_history, idle_flow_released, tick_expires_all_idle, fresh_flow_survives_advance, "
                     "tick_period, dns_flow_released_when_answered, dns_flow_kept_while_pending, dns_query_counts, "
